@@ -8,7 +8,7 @@ use refimpl::wire::{self, FpUpdate, Rect};
 use serde::{Deserialize, Serialize};
 
 pub const LEVEL: &str = "exploration";
-pub const RULE: &str = "aligned-sizes: PDUs whose frame / body / bitmap data size is 1024, 1500, 2048, 4096, k x 8192, 32764 (+-3), each followed by further PDUs already in the stream (queued delivery: a reader that reads too far swallows the next PDU); server-variants: 256 variants of what the server said during connection setup (reported version, maximum MCS PDU size down to 1056, capability list order / subsets, general extraFlags with and without NO_BITMAP_COMPRESSION_HDR / FASTPATH_OUTPUT) x rectangles of every flag combination and PDUs above the negotiated MCS PDU size; after-malformed-update: a bitmap-coded update whose updateType is not 1 (what the client makes of that PDU is not asserted; if it goes on, the following PDUs must be exact). case = sequence of 1..8 fast-path output PDUs, each with 0..6 updates (bitmap with 0..5 rectangles, synchronize, pointer-null, well-formed colour pointer, and unsupported/unknown update codes), every rectangle field a boundary-biased u16, flags in {0, 0x0001 with TS_CD_HEADER, 0x0401, 0x0400}, data lengths 0..largest that fits, short and long fast-path length forms, free numEvents/flag bits. Oracle: the list of RdpEvent::Bitmap values passed to the callback equals, element for element and in order, the rectangles of the reference fast-path description (position, size, bpp, compression bit, data); no other event is produced; every read returns Ok. Non-trivial = a PDU with >= 2 updates, >= 2 rectangles, or a non-bitmap update before a bitmap one; distinct by hash of the case.";
+pub const RULE: &str = "aligned-sizes: PDUs whose frame / body / bitmap data size is 1024, 1500, 2048, 4096, k x 8192, 32764 (+-3), each followed by further PDUs already in the stream (queued delivery: a reader that reads too far swallows the next PDU); server-variants: 256 variants of what the server said during connection setup (reported version, maximum MCS PDU size down to 1056, capability list order / subsets, general extraFlags with and without NO_BITMAP_COMPRESSION_HDR / FASTPATH_OUTPUT) x rectangles of every flag combination and PDUs above the negotiated MCS PDU size; after-malformed-update: a bitmap-coded update whose updateType is not 1 (what the client makes of that PDU is not asserted; if it goes on, the following PDUs must be exact). case = sequence of 1..8 fast-path output PDUs, each with 0..6 updates (bitmap with 0..5 rectangles, synchronize, pointer-null, well-formed colour pointer, and unsupported/unknown update codes), every rectangle field a boundary-biased u16 (a third of the rectangles instead coherent: uncompressed tiles of 1..12 x 1..8 pixels at 8/15/16/24/32 bpp whose data length is exactly rows x padded width x bytes per pixel, all rows different), flags in {0, 0x0001 with TS_CD_HEADER, 0x0401, 0x0400}, data lengths 0..largest that fits, short and long fast-path length forms, free numEvents/flag bits. Oracle: the list of RdpEvent::Bitmap values passed to the callback equals, element for element and in order, the rectangles of the reference fast-path description (position, size, bpp, compression bit, data); no other event is produced; every read returns Ok. Non-trivial = a PDU with >= 2 updates, >= 2 rectangles, or a non-bitmap update before a bitmap one; distinct by hash of the case.";
 
 #[derive(Serialize, Deserialize, Hash, Clone, Debug)]
 pub struct Pdu {
@@ -195,6 +195,24 @@ pub fn run(c: &Case) -> Outcome {
 }
 
 fn gen_rect(s: &mut Src, budget: &mut usize) -> Rect {
+    // a third of the rectangles are what a real server sends: geometry, depth and data length agree (uncompressed rows of
+    // width x bytes-per-pixel, all rows different), so that code which treats well-formed tiles specially is exercised
+    if s.chance(85) {
+        let w = 1 + s.below(12);
+        let h = 1 + s.below(8);
+        let bpp = s.pick(&[32u16, 32, 16, 16, 24, 15, 8]);
+        let bytes = (bpp as usize + 7) / 8;
+        let pad = if s.chance(64) { (4 - w % 4) % 4 } else { 0 };
+        let len = (w + pad) * h * bytes;
+        if len + 40 <= *budget {
+            *budget -= len + 40;
+            let salt = s.u8() as usize;
+            let left = s.below(2000) as u16;
+            let top = s.below(1200) as u16;
+            let data: Vec<u8> = (0..len).map(|k| ((k * 37 + salt) ^ (k >> 8)) as u8).collect();
+            return Rect { left, top, right: left + w as u16 - 1, bottom: top + h as u16 - 1, width: (w + pad) as u16, height: h as u16, bpp, flags: s.pick(&[0u16, 0, 0x0400]), cd_scan_width: 0, cd_uncompressed: 0, data };
+        }
+    }
     let flags = s.pick(&[0u16, 0x0001, 0x0401, 0x0400, 0x0001, 0]);
     let maxd = (*budget).min(0x7000);
     let len = match s.below(10) {
